@@ -117,7 +117,7 @@ impl Scenario for S6 {
             let mut s = alloc::tracked(|| build_life(&case.kind, case.hasher, case.rng_seed, &[], 0, case.alphabet.min(1 << 40)));
             let mut g = Sm::new(case.stream_seed);
             let mut marks: Vec<(usize, i64)> = vec![];
-            let mut check = |held: i64, n_seen: usize, when: &str, viol: &mut Vec<Violation>, step: usize| -> bool {
+            let check = |held: i64, n_seen: usize, when: &str, viol: &mut Vec<Violation>, step: usize| -> bool {
                 let (doc, factor) = documented(&case.kind, n_seen.max(1));
                 let bound = factor * doc + SLACK;
                 if held as f64 > bound {
